@@ -399,8 +399,11 @@ class Histogram1D(ObjectWithBinning, HistogramBase):
             if self.keep_missed:
                 self.overflow += weight
         else:
+            # The square first: it is what may not fit the content type (then nothing has changed yet)
+            self._errors2[ixbin] += (
+                weight.item() ** 2 if isinstance(weight, np.generic) else weight**2
+            )
             self._frequencies[ixbin] += weight
-            self._errors2[ixbin] += float(weight) ** 2 if isinstance(weight, np.generic) else weight**2
             try:
                 self._stats = dataclasses.replace(
                     self.statistics,
